@@ -32,6 +32,52 @@ def vsize(x):
     return 1 if x < 64 else 2 if x < 16384 else 4 if x < (1 << 30) else 8
 
 
+def eq_chain_set(ctx, rule, key):
+    """{(constant name or None, value)} for which a predicate written as `self == A || self == B || ..` (or on `self.0`) answers
+    true, read off its paths; None when the function does not have that shape."""
+    prog = ctx.prog
+    b = prog.one(key)
+    if b is None:
+        return None
+    out = set()
+
+    def cmp_const(v):
+        # (name, value) of the constant a comparison of self / self.0 is made against
+        if v[0] == "call" and pa.short(v[1]) == "eq" and len(v[2]) == 2:
+            ops = v[2]
+        elif v[0] == "binop" and v[1] == "Eq":
+            ops = (v[2], v[3])
+        else:
+            return None
+        me = [o for o in ops if o[0] == "param" and o[1] == 1]
+        co = [o for o in ops if o[0] == "const"]
+        if len(me) != 1 or len(co) != 1:
+            return None
+        c = co[0][1]
+        if isinstance(c, str):
+            return (c.rsplit("::", 1)[-1], prog.consts.get(c))
+        return (None, c)
+    ps = [p for p in ru.all_paths(ctx, rule, b) if p.end == "return"]
+    for p in ps:
+        cs = [(cmp_const(t[3]), t[2]) for t in p.tests]
+        if any(c is None for c, _ in cs):
+            return None
+        trues = [c for c, lab in cs if lab == "true"]
+        r = expr.fold(p.ret, prog.consts)
+        if trues:
+            if len(trues) != 1 or r != 1:
+                return None
+            out.add(trues[0])
+        elif r == 0:
+            pass
+        else:
+            c = cmp_const(p.ret)        # `.. || self == LAST`: the last comparison is the returned value
+            if c is None:
+                return None
+            out.add(c)
+    return out
+
+
 def run(ctx):
     # constructs shared with other properties: the varint forms every SETTINGS length/identifier/value is written in, and the
     # incremental frame reader that has to hand the peer's SETTINGS frame over once it is complete
@@ -51,7 +97,11 @@ def run(ctx):
             else:
                 sup.add((x[1].rsplit("::", 1)[-1], v))
     else:
-        ctx.missing("C13-a", SID + "is_supported table")
+        alt = eq_chain_set(ctx, "C13-a", SID + "is_supported")
+        if alt and all(n is not None and v is not None for n, v in alt):
+            sup |= set(alt)
+        else:
+            ctx.missing("C13-a", SID + "is_supported table")
     ms = tables.match_tables(prog, SID + "is_forbidden")
     if len(ms) == 1 and ms[0][0][0][0] == "or":
         for x in ms[0][0][0][1]:
@@ -60,7 +110,11 @@ def run(ctx):
             else:
                 ctx.unrecognised("C13-d", SID + "is_forbidden", "pattern", "pattern %s" % (x,))
     else:
-        ctx.missing("C13-d", SID + "is_forbidden table")
+        alt = eq_chain_set(ctx, "C13-d", SID + "is_forbidden")
+        if alt and all(isinstance(v, int) for _, v in alt):
+            forb |= {v for _, v in alt}
+        else:
+            ctx.missing("C13-d", SID + "is_forbidden table")
     ctx.check(forb == set(REG["settings_reserved_h2"]), "C13-d", SID + "is_forbidden", "= HTTP/2-reserved identifiers {0,2,3,4,5}",
               "is_forbidden covers %s; RFC 9114 11.2.2 reserves %s" % (sorted(forb), REG["settings_reserved_h2"]), str(sorted(forb)))
     supv = {v for _, v in sup}
@@ -143,7 +197,8 @@ def run(ctx):
                 o = f.origin(ru.field_op(s, fld))
                 gets = [n for n in fl.walk(o) if n[0] == "call" and n[1] == FRM + "Settings::get"]
                 ids = {fl.fmt(n[2][1]) for n in gets}
-                ok = ids == {"const(%s%s)" % (SID, name)} and ru.o_has_call(o, "core::option::Option::unwrap_or")
+                ok = ids == {"const(%s%s)" % (SID, name)} and (ru.o_has_call(o, "core::option::Option::unwrap_or") or
+                                                                   (o[0] == "phi" and len(o[1]) == 2))     # explicit `match get(ID) { Some(v) => .., None => default }`
                 ctx.check(ok, "C13-a", inv.key, "config.%s <- %s (default otherwise)" % (fld, name),
                           "received settings: field %s is read from identifiers %s; the writer sends it as %s" % (fld, sorted(ids), name), str(sorted(ids)))
     # ------------------------------------------------------------------ C13-b capacity
